@@ -1,5 +1,5 @@
 (* C06 -- RomFS: bounded walk of the metadata tables, lookup rules, IVFC offset. *)
-From Pyctr Require Import Base.Prelude Base.ListExt Base.PyInt Base.PySlice Model.Romfs Proofs.RomfsProofs.
+From Pyctr Require Import Base.Prelude Base.ListExt Base.PyInt Base.PySlice Model.Romfs Proofs.RomfsProofs Proofs.RomfsRepProofs.
 From Dyn Require Import Gen_util Gen_romfs.
 
 (* the level-3 offset inside an IVFC-wrapped RomFS, for every block-size exponent *)
@@ -38,7 +38,19 @@ Theorem C06_missing : forall ci p r nm ch,
 Proof. exact (lookup_missing lower). Qed.
 End Lookup.
 
+(* The walk returns the tree the tables represent.  [rep_root dm fm tree doffs foffs] reads the format declaratively: the root
+   entry's first-child chain lists the sub-directories (each entry: name, its own sub-directories, its files, next sibling), its
+   first-file chain the files (name, data offset, size); doffs / foffs are the directory / file entries used.  For EVERY pair of
+   tables and EVERY tree they represent without using an entry twice, the reader's walk -- with the fuel it computes from the
+   table sizes -- returns exactly that tree: every name, the nesting, the order, every file's offset and size. *)
+Theorem C06_walk_returns_tree : forall dm fm tree doffs foffs,
+  rep_root dm fm tree doffs foffs -> NoDup (0 :: doffs) -> NoDup foffs ->
+  (forall o, In o doffs -> 0 <= o) -> (forall o, In o foffs -> 0 <= o) ->
+  walk_bounded dm fm = Ok tree.
+Proof. exact walk_bounded_rep. Qed.
+
 Print Assumptions C06_ivfc_offset.
+Print Assumptions C06_walk_returns_tree.
 Print Assumptions C06_walk_bounded.
 Print Assumptions C06_lookup_ci.
 Print Assumptions C06_lookup_cs.
@@ -51,3 +63,8 @@ Example C06_cycle_detected :
   let d := le4 0 ++ le4 0x18 ++ le4 NONE ++ le4 NONE ++ le4 NONE ++ le4 2 ++ [97; 0; 0; 0] in
   walk_bounded (root ++ d) [] = Err (Pyctr 42).
 Proof. vm_compute. reflexivity. Qed.
+
+(* tables for /a/f and /g: they represent the tree, and the walk returns it *)
+Example C06_walk_nonvacuous :
+  rep_root ex_dm ex_fm ex_tree [0x18] [0x24; 0] /\ walk_bounded ex_dm ex_fm = Ok ex_tree.
+Proof. exact rep_nonvacuous. Qed.
